@@ -239,12 +239,6 @@ def run_driver(transcript, jobs=16):
             if isinstance(v, int):
                 res["summary"][k2] = res["summary"].get(k2, 0) + v
         res["driver_rc"] |= pr.returncode
-    for p in parts:
-        if p != transcript:
-            try:
-                os.remove(p)
-            except OSError:
-                pass
     res["wall_driver"] = time.time() - t0
     return res
 
@@ -463,7 +457,7 @@ class Check:
         try:
             for fn in os.listdir(WORK):
                 fp = os.path.join(WORK, fn)
-                if fn.startswith(self.prop + "-") and os.path.isfile(fp) and os.path.getsize(fp) > 50_000_000:
+                if fn.startswith(self.prop + "-") and os.path.isfile(fp) and (os.path.getsize(fp) > 50_000_000 or ".tr.part" in fn):
                     os.remove(fp)
         except OSError:
             pass
